@@ -1,7 +1,7 @@
 #!/bin/bash
 # usage: tools/run_all.sh <tier> <seed>...   -- runs every registered check, prints one line per check + any VIOLATION/BROKEN
 tier=$1; shift
-cd /verif
+cd "$(dirname "$0")/.."
 for seed in "$@"; do
   for p in $(python3 -c "import json;print(' '.join(c['property_id'] for c in json.load(open('MANIFEST.json'))['checks']))"); do
     ./check $p --tier $tier --seed $seed 2>&1 | grep "^VIOL\|^C[0-9][0-9] tier\|BROKEN\|signature:" | head -12
